@@ -76,6 +76,10 @@ func runC10(r *Run) {
 	}
 	termDelay := []time.Duration{time.Millisecond, time.Second, 8 * time.Second}[t.Draw(3)]
 	termByCancel := t.Draw(2) == 1 // cancel() from a timer instead of a deadline
+	// a second frame writer inside writeFrame while the cancelled Write is
+	// blocked: 0 none, 1 a peer ping whose pong queues behind the blocked
+	// Write, 2 the Write queues behind a Ping that is blocked in the transport
+	conc := t.Weighted(2, 1, 1)
 
 	sig := fmt.Sprintf("flavour=%v,terminal=%d", pingFlavour, terminal)
 	r.Class = fmt.Sprintf("%s/cli%v/d%v/n%d", sig, rc.Opts.LibClient, rc.Neg.Deflate, nOps/4)
@@ -271,6 +275,9 @@ func runC10(r *Run) {
 			inIO := false
 			time.AfterFunc(termDelay-time.Microsecond, func() {
 				inIO = rc.Lib.InRead() && (termKind == 0 || termKind == 1) || rc.Lib.InWrite() && (termKind == 2 || termKind == 3)
+				if conc == 2 {
+					inIO = false // the cancelled Write waits for a lock; the Ping is the one in I/O
+				}
 			})
 			var err error
 			start := r.S.Now()
@@ -282,9 +289,30 @@ func runC10(r *Run) {
 				}
 				_, _, err = c.Read(ctx)
 			case 2, 3:
+				// let the peer drain what earlier calls wrote, then stop it
+				r.S.ParkE("a.prog.drain", func() bool { return rc.Lib.Out().Buffered() == 0 }, nil)
 				paused = true
 				rc.Lib.Out().Cap = 512
 				rc.Lib.Out().HardCap = true
+				switch conc {
+				case 1:
+					if !pingFlavour {
+						// somebody has to read for the ping to be seen
+						r.S.Go("bgreader", func() { c.Read(bg) })
+					}
+					time.AfterFunc(termDelay/2, func() {
+						peer.Inject(peer.Encode(wsref.Frame{Fin: true, Opcode: wsref.OpPing, Payload: []byte("queued")}))
+					})
+				case 2:
+					// fill the pipe exactly, then block a Ping in the transport
+					if e := c.Write(bg, websocket.MessageBinary, make([]byte, 40)); e != nil {
+						r.Violate("call-failed-after-harmless-cancel", sig+",filler", "filler write failed: %v", e)
+						return
+					}
+					rc.Lib.Out().Cap = rc.Lib.Out().Buffered()
+					r.S.Go("bgping", func() { c.Ping(bg) })
+					r.S.ParkE("a.prog.waitping", func() bool { return rc.Lib.InWriteLocked() }, nil)
+				}
 				err = c.Write(ctx, websocket.MessageBinary, Payload{Kind: 2, Len: 40000, Seed: 3}.Bytes())
 			default:
 				withholdPong = true
@@ -298,6 +326,9 @@ func runC10(r *Run) {
 			}
 			if took > termDelay+time.Second {
 				r.Violate("cancel-not-prompt", s2, "%s returned %v after its context ended", c10Ops[termKind], took-termDelay)
+			}
+			if (termKind == 2 || termKind == 3) && conc != 0 {
+				r.S.Count(fmt.Sprintf("probe.cancel-during-write-conc%d", conc))
 			}
 			if termKind != 4 {
 				r.S.Count("probe.cancel-during-io")
@@ -320,6 +351,6 @@ func runC10(r *Run) {
 	})
 	r.S.Loop()
 	if r.S.Aborted == "sim-time" {
-		r.Violate("stuck", sig, "program did not finish: parked=%v; last context cancelled: %s", r.S.ParkedIDs(), lastCancelled)
+		r.Violate("stuck", sig, "program did not finish: parked=%v; last context cancelled: %s; %s %s", r.S.ParkedIDs(), lastCancelled, rc.Lib.Debug(), rc.Raw.Debug())
 	}
 }
